@@ -49,6 +49,11 @@ func (k key) String() string {
 type rec struct {
 	nonce  uint32
 	expiry time.Time
+	// displaced: earlier Interests of the same downstream face for the same pending entry whose
+	// nonce a retransmission with ANOTHER nonce pushed out of the face's record. They were neither
+	// satisfied nor have they expired: each is still pending from that face until its own lifetime
+	// ends (see the C02.drop clause below).
+	displaced []rec
 }
 
 type fwd struct {
@@ -84,6 +89,8 @@ type ref struct {
 	// believed ("recorded as dead") only for pairs that arrived before: a nonce can have been
 	// recorded as dead for a name only after an Interest with that name carried it.
 	seenPair map[string]bool
+	// firstSeen: when each (name, nonce) arrived for the first time
+	firstSeen map[string]time.Time
 }
 
 func pairKey(name string, nonce uint32) string { return fmt.Sprintf("%s|%x", name, nonce) }
@@ -91,7 +98,7 @@ func pairKey(name string, nonce uint32) string { return fmt.Sprintf("%s|%x", nam
 func newRef(cfg fwsim.Config) *ref {
 	r := &ref{ents: map[key]*ent{}, fib: map[string]map[uint64]uint64{}, strat: map[string]string{}, cacheOn: cfg.CsAdmit && cfg.CsServe,
 		cache: map[string]bool{}, lastNonce: map[string]uint32{}, deadSince: map[string]time.Time{}, issued: map[uint32]key{},
-		prevNonce: map[string]uint32{}, deadSincePrev: map[string]time.Time{}, seenPair: map[string]bool{}}
+		prevNonce: map[string]uint32{}, deadSincePrev: map[string]time.Time{}, seenPair: map[string]bool{}, firstSeen: map[string]time.Time{}}
 	r.dnlLife = cfg.DnlLifetime
 	if r.dnlLife == 0 {
 		r.dnlLife = 6 * time.Second // as shipped (fwsim default)
@@ -291,6 +298,9 @@ func (r *ref) onInterest(in *inst, o *iOp, nonce uint32, hasNonce, dead bool, be
 			ctx += "; the dead nonce list holds this (name, nonce) although no Interest with this name carried this nonce before"
 		}
 		r.seenPair[pk] = true
+		if _, ok := r.firstSeen[pk]; !ok {
+			r.firstSeen[pk] = now
+		}
 	}
 
 	// hop limit in the sent wire = received - 1
@@ -351,6 +361,22 @@ func (r *ref) onInterest(in *inst, o *iOp, nonce uint32, hasNonce, dead bool, be
 			if f != o.face && rc.nonce == nonce && now.Before(rc.expiry) {
 				reason = "nonce of an Interest still pending from another face"
 			}
+			// An Interest whose nonce was pushed out of its face's record by that face's
+			// retransmission is "still pending from another face" as well: it was not satisfied and
+			// its lifetime has not ended. The forwarder can remember such a nonce only through the
+			// dead nonce list, whose CONFIGURED lifetime the operator may set below the Interest
+			// lifetime; the drop is demanded only while less than that lifetime has passed since
+			// the (name, nonce) arrived for the first time (no record of it can be older), and
+			// otherwise left open.
+			for _, d := range rc.displaced {
+				if f != o.face && d.nonce == nonce && now.Before(d.expiry) && reason == "" {
+					if now.Before(r.firstSeen[pairKey(o.name, nonce)].Add(r.dnlLife)) {
+						reason = "nonce of an Interest still pending from another face (its nonce was replaced in that face's record by a retransmission)"
+					} else {
+						stats["may forward: nonce of a displaced pending Interest, older than the configured dead-nonce lifetime"]++
+					}
+				}
+			}
 		}
 	}
 	if reason != "" {
@@ -360,7 +386,7 @@ func (r *ref) onInterest(in *inst, o *iOp, nonce uint32, hasNonce, dead bool, be
 		}
 		// whether such an Interest is nevertheless recorded as pending is not C02's subject
 		if ir := implRec(in.dump, k, o.face); hasNonce && ir != nil && ir.Nonce == nonce && ir.ExpireIn == o.life() {
-			r.get(k).recs[o.face] = &rec{nonce: nonce, expiry: now.Add(o.life())}
+			r.accept(k, o.face, nonce, now.Add(o.life()), before, in.dump, now)
 		}
 		return
 	}
@@ -565,7 +591,7 @@ func (r *ref) onInterest(in *inst, o *iOp, nonce uint32, hasNonce, dead bool, be
 			accepted = ir != nil && ir.Nonce == nonce && ir.ExpireIn == o.life()
 		}
 		if accepted {
-			r.get(k).recs[o.face] = &rec{nonce: nonce, expiry: now.Add(o.life())}
+			r.accept(k, o.face, nonce, now.Add(o.life()), before, in.dump, now)
 		}
 	}
 	if len(is) > 0 {
@@ -579,6 +605,27 @@ func (r *ref) onInterest(in *inst, o *iOp, nonce uint32, hasNonce, dead bool, be
 	return
 }
 
+// accept records an Interest as pending from a downstream face. The Interest it replaces in the
+// face's record (another nonce, lifetime not over, and the forwarder's own record of the face held
+// that nonce too) stays pending as a displaced one; so do the ones displaced earlier.
+func (r *ref) accept(k key, face uint64, nonce uint32, expiry time.Time, before, after table.VerifPitCsDump, now time.Time) {
+	e := r.get(k)
+	nr := &rec{nonce: nonce, expiry: expiry}
+	if old := e.recs[face]; old != nil {
+		for _, d := range old.displaced {
+			if d.nonce != nonce && now.Before(d.expiry) {
+				nr.displaced = append(nr.displaced, d)
+			}
+		}
+		ir, ia := implRec(before, k, face), implRec(after, k, face)
+		if old.nonce != nonce && now.Before(old.expiry) && ir != nil && ir.Nonce == old.nonce && ia != nil && ia.Nonce == nonce {
+			nr.displaced = append(nr.displaced, rec{nonce: old.nonce, expiry: old.expiry})
+			stats["a pending Interest's nonce is replaced by a same-face retransmission"]++
+		}
+	}
+	e.recs[face] = nr
+}
+
 func (r *ref) entStr(k key, now time.Time) string {
 	e := r.ents[k]
 	if e == nil {
@@ -587,6 +634,9 @@ func (r *ref) entStr(k key, now time.Time) string {
 	x := []string{}
 	for f, rc := range e.recs {
 		x = append(x, fmt.Sprintf("%s(nonce %x, %s left)", faceLabel[f], rc.nonce, rc.expiry.Sub(now)))
+		for _, d := range rc.displaced {
+			x = append(x, fmt.Sprintf("%s(replaced nonce %x, %s left)", faceLabel[f], d.nonce, d.expiry.Sub(now)))
+		}
 	}
 	sort.Strings(x)
 	s := "{" + strings.Join(x, " ") + "}"
